@@ -21,6 +21,7 @@ from sim.simos import SimOS
 from sim.simthreading import make_threading
 
 POOL = base.POOL
+NPOOL = base.NPOOL
 
 
 class FsFaults:
@@ -112,12 +113,12 @@ class History:
 
 def gen_program(tape, phase, special):
     """Programs for the concurrent phase: <=2 processes x <=2 threads, <=3 ops each."""
-    first = tape.draw(len(POOL), 'pool.first')
+    first = tape.draw(NPOOL, 'pool.first')
     chosen = [first]
-    same = [e['idx'] for e in POOL if e['dataset'] == POOL[first]['dataset'] and e['idx'] != first]
-    other = [e['idx'] for e in POOL if e['idx'] != first]
+    same = [e['idx'] for e in POOL[:NPOOL] if e['dataset'] == POOL[first]['dataset'] and e['idx'] != first]
+    other = [e['idx'] for e in POOL[:NPOOL] if e['idx'] != first]
     nmod = 1 + tape.draw(3, 'nmodels')
-    twins = [e['idx'] for e in POOL if e['key'] == POOL[first]['key'] and e['idx'] != first]
+    twins = [e['idx'] for e in POOL[:NPOOL] if e['key'] == POOL[first]['key'] and e['idx'] != first]
     if twins and nmod > 1 and tape.draw(2, 'pool.twin'):
         chosen.append(twins[0])
     while len(chosen) < nmod:
@@ -132,7 +133,7 @@ def gen_program(tape, phase, special):
         focus = 3
     if focus == 3:
         # hot key: transactions and readers of one entry (biased to one that carries results)
-        hot = [e['idx'] for e in POOL if e['has_results']]
+        hot = [e['idx'] for e in POOL[:NPOOL] if e['has_results']]
         first = hot[tape.draw(len(hot), 'hot.model')] if tape.draw(3, 'hot.results') else first
         chosen = [first]
     threads = []
